@@ -23,6 +23,7 @@ def goenv():
     env = dict(os.environ)
     env.update({"GOFLAGS": "-mod=mod", "GOPROXY": "off", "GOSUMDB": "off", "GOTOOLCHAIN": "local",
                 "PATH": GOROOT_BIN + ":" + env.get("PATH", ""), "CGO_ENABLED": "0"})
+    env.setdefault("GOMAXPROCS", "2")
     return env
 
 
